@@ -164,7 +164,7 @@ Proof.
 Qed.
 
 (* the driver's error transitions are the transition system's *)
-Lemma xnext_err_v x o : x_v (xnext_err x o) = fault_next (x_v x) o.
+Lemma xnext_err_v x o hm : x_v (xnext_err x o hm) = fault_next (x_v x) o.
 Proof. destruct o; reflexivity. Qed.
 
 Lemma xop_prog_cases x s o p flag : xop_prog x s o = Some (p, flag) ->
@@ -172,6 +172,6 @@ Lemma xop_prog_cases x s o p flag : xop_prog x s o = Some (p, flag) ->
 Proof.
   destruct o as [b| |gc ins outs]; cbn [xop_prog].
   - destruct (x_log_ok x); intros H; inversion H; auto.
-  - destruct (x_flush_ok x); [destruct (x_log_ok x); [|discriminate]|]; intros H; inversion H; auto.
-  - intros H; inversion H; auto.
+  - destruct (x_flush_ok x); [destruct (x_log_ok x && x_mani_ok x); [|discriminate]|]; intros H; inversion H; auto.
+  - destruct (x_mani_ok x); [|discriminate]. intros H; inversion H; auto.
 Qed.
